@@ -15,7 +15,7 @@ func init() {
 	register(&Rule{ID: "R8.flush-before-send", Props: []string{"C08"}, Floor: 1,
 		Text: "in netServe's connection closure every write of client.out to the socket is separated from every preceding handleInputCommand call by either the false edge of aofdirty.Load() or a flushAOF call made with Server.mu held exclusively (directly, in an invoked literal, or in a helper — must-pass-through on go/cfg with summaries, inlining bound 3)",
 		Run:  ruleFlushBeforeSend})
-	register(&Rule{ID: "R8.set-on-append", Props: []string{"C08"}, Floor: 1,
+	register(&Rule{ID: "R8.set-on-append", Props: []string{"C08", "C18"}, Floor: 1,
 		Text: "every function that grows Server.aofbuf also stores true to aofdirty on every path to the append",
 		Run:  ruleSetOnAppend})
 	register(&Rule{ID: "R8.flush-complete", Props: []string{"C08"}, Floor: 2,
